@@ -186,7 +186,7 @@ prop('C03', level='other', design_ref='DESIGN.md section 6 (C03)',
      text='backup_fs moves only the pointers; reorg range arithmetic.  Index equality after generated reorg histories is bounded.',
      note=_IDX_NOTE, explanation='Components deductive; whole-index equality bounded (labelled).',
      bounded=[{'obligation': 'index.c03.bounded', 'driver': 'index_scenario.py', 'request': {'mode': 'c03', 'rounds': 10},
-               'what': 'after 1-3 reorgs of depth 1-3 (forced/natural, back to back) every observable equals a fresh index',
+               'what': 'after 1-3 reorgs of depth 1-3 (forced/natural, back to back) every observable equals a fresh index; every script hash changed by an undone block is in the touched set',
                'bound': '10 (thorough: 60) generated chains of 6-13 blocks x random flush schedules'}],
      not_decided=['backup_block, History.backup, flush_backup not under deductive contract'], assumptions=[])
 prop('C04', level='other', design_ref='DESIGN.md section 6 (C04)',
@@ -267,7 +267,12 @@ prop('C07', level='other', design_ref='DESIGN.md section 6 (C07)',
                        'model of confirmed history + mempool summaries: after every notification round each client holds the '
                        'true status of every subscribed script hash (incl. status changes of untouched script hashes when a '
                        'mempool parent confirms) and the true tip',
-               'bound': '300 (thorough: 1800) random histories of 3-9 steps (mempool add/evict, blocks, height-only) over 8 script hashes'}],
+               'bound': '300 (thorough: 1800) random histories of 3-9 steps (mempool add/evict, blocks, height-only) over 8 script hashes'},
+              {'obligation': 'index.c07.touched', 'driver': 'index_scenario.py', 'request': {'mode': 'c03', 'rounds': 6},
+               'what': 'the block processor reports as touched every script hash whose history an indexed or an undone block '
+                       'changed (real BlockProcessor on generated chains and reorgs; the set is cleared before each block as '
+                       'on_caught_up does)',
+               'bound': '6 (thorough: 36) generated chains of 6-13 blocks with 1-3 reorgs of depth 1-3'}],
      explanation='Component obligations; composition written, not mechanised.',
      not_decided=['end-to-end convergence over schedules', 'status string formatting vs docs/protocol-basics.rst'], assumptions=[])
 
